@@ -8,8 +8,8 @@ MOD = "vf.checks.c01"
 BOUND = [0x0000, 0x0001, 0x007F, 0x0080, 0x00FF, 0x0100, 0x7FFF, 0x8000, 0x8001, 0xFF00, 0xFFFE, 0xFFFF]
 
 
-def pool_model():
-    """small DEX whose pools are known: -> (bytes, writer)"""
+def pool_model(variant=0):
+    """small DEX whose pools are known: -> (bytes, writer). Other variants have other names at the same pool indices."""
     m = W.DexModel()
     c = m.add_class("Lp/A;", source="A.java")
     c.add_field("f0", "I", W.ACC_STATIC)
@@ -17,12 +17,54 @@ def pool_model():
     c.add_method("m0", "V", [], W.ACC_STATIC, W.Code(1, 0, 0, [("return-void",)]))
     c.add_method("m1", "I", ["I", "J"], W.ACC_PUBLIC, W.Code(5, 4, 0, [("const/4", 0, 0), ("return", 0)]))
     for i in range(6):
-        m.extra_refs.append(W.Str("str%d" % i))
-        m.extra_refs.append(W.Typ("Lq/T%d;" % i))
-        m.extra_refs.append(W.Fld("Lq/T%d;" % i, "g%d" % i, "[I"))
-        m.extra_refs.append(W.Mth("Lq/T%d;" % i, "n%d" % i, "J", ["Lq/T0;", "D"]))
+        j = i + 7 * variant
+        m.extra_refs.append(W.Str("str%d" % j))
+        m.extra_refs.append(W.Typ("Lq/T%d;" % j))
+        m.extra_refs.append(W.Fld("Lq/T%d;" % j, "g%d" % j, "[I"))
+        m.extra_refs.append(W.Mth("Lq/T%d;" % j, "n%d" % j, "J", ["Lq/T%d;" % (7 * variant), "D"]))
     data, w = W.write_dex(m, want_writer=True)
     return data, w
+
+
+def shard_successive(ctx, arg):
+    """several DEX files one after the other in ONE process, with other names at the same pool indices; most are released (and collected) before the
+    next one is parsed, so that the next class manager can land where a dead one was: an index still resolves in the file it was read from"""
+    import gc
+    from androguard.core import dex
+    lo, hi = arg
+    rng = ctx.rng("c01-successive", lo)
+    kept = []
+    addresses = set()
+    reused = 0
+    for v in range(lo, hi):
+        data, w = pool_model(variant=v)
+        dx = dex.DEX(data)
+        cm = dx.get_class_manager()
+        if id(cm) in addresses:
+            reused += 1
+        addresses.add(id(cm))
+        for op in sorted(D.OPCODES):
+            fmt, kind = D.OPCODES[op][1], D.OPCODES[op][2]
+            if kind not in ("string", "type", "field", "method"):
+                continue
+            size = {"string": len(w.string_list), "type": len(w.type_list), "field": len(w.field_list), "method": len(w.method_list)}[kind]
+            for idx in range(size):
+                hib = rng.randrange(256)
+                if fmt in ("35c",):
+                    hib = (rng.randrange(6) << 4) | rng.randrange(16)
+                if fmt in ("21c", "22c"):
+                    us = [op | (hib << 8), idx]
+                elif fmt == "31c":
+                    us = [op | (hib << 8), idx, 0]
+                else:
+                    us = [op | (hib << 8), idx, rng.getrandbits(16)]
+                compare(ctx, cm, dex, w, us, inpool=True)
+        ctx.count("successive_files")
+        if v % 4 == 0:
+            kept.append((dx, cm))
+        del dx, cm
+        gc.collect()
+    ctx.count("class_managers_at_an_address_a_dead_one_had", reused)
 
 
 def field_class(v, bits, signed):
@@ -322,6 +364,10 @@ def run(ctx):
                        "call_site/method_handle/proto indices: only the index value is compared"]
     # name/length table sanity against androguard: disagreements are findings, not reconciled
     ctx.run_shards(MOD, "shard", [[i * 16, (i + 1) * 16] for i in range(16)], timeout=3000)
+    ns = 30 if ctx.quick else 300
+    ctx.run_shards(MOD, "shard_successive", [[i * ns, (i + 1) * ns] for i in range(4)], timeout=3000)
+    ctx.require_counter("successive_files", 40)
+    ctx.require_counter("class_managers_at_an_address_a_dead_one_had", 1)
     n = 4000 if ctx.quick else 400000
     ctx.run_shards(MOD, "shard_payloads", [[i, n // 8] for i in range(8)], timeout=3000)
     ctx.require_counter("payloads_packed", 100)
